@@ -118,6 +118,73 @@ pub fn run(args: &[String]) {
         }
         shared.merge(rep);
     });
+    // (4) the scratch clause under planner HISTORY: one long-lived planner per (kind, type); large smooth lengths first (they
+    // become cached inner-FFT candidates), then Bluestein / Rader lengths whose inner length lies near them
+    {
+        let mut rep = Report::default();
+        let bases = [2048usize, 3072, 4096, 6144, 6912, 8192, 9216, 10368, 13824, 16384, 20736];
+        let primes: Vec<usize> = (500..11000usize).filter(|&p| crate::util::is_prime_u64(p as u64)).collect();
+        for kind in avail() {
+            for ty in 0..2 {
+                let r = catch(|| {
+                    let mut fails: Vec<(String, String)> = vec![];
+                    let mut evals = 0u64;
+                    let mut rng = Rng::new(seed ^ 0x4157 ^ ty as u64);
+                    let mut check = |name: &str, n: usize, s: [usize; 3], len: usize, fails: &mut Vec<(String, String)>| {
+                        if len != n {
+                            fails.push((format!("history-len {}/{} n={}", name, if ty == 0 { "f32" } else { "f64" }, n), format!("reports len {}", len)));
+                        }
+                        for (i, v) in s.iter().enumerate() {
+                            if *v > 12 * n + 64 {
+                                fails.push((format!("history-scratch {}/{} n={} entry{}", name, if ty == 0 { "f32" } else { "f64" }, n, i), format!("advertised {} > 12 n + 64 = {} on a planner that had planned other lengths before", v, 12 * n + 64)));
+                            }
+                        }
+                    };
+                    macro_rules! go {
+                        ($t:ty) => {{
+                            let mut p = AnyPlanner::<$t>::new(kind).unwrap();
+                            for &b in bases.iter() {
+                                for d in [FftDirection::Forward, FftDirection::Inverse] {
+                                    let f = p.plan(b, d);
+                                    evals += 1;
+                                    check(kind.name(), b, [f.get_inplace_scratch_len(), f.get_outofplace_scratch_len(), f.get_immutable_scratch_len()], f.len(), &mut fails);
+                                }
+                                for _ in 0..10 {
+                                    // a prime (or twice / three times a prime) whose Bluestein inner length 2n-1.. lies below the base
+                                    let q = primes[rng.below(primes.len() as u64) as usize];
+                                    let n = q * [1usize, 1, 2, 3][rng.below(4) as usize];
+                                    if 2 * n > b + b / 2 || n < b / 12 {
+                                        continue;
+                                    }
+                                    let d = if rng.below(2) == 0 { FftDirection::Forward } else { FftDirection::Inverse };
+                                    let f = p.plan(n, d);
+                                    evals += 1;
+                                    check(kind.name(), n, [f.get_inplace_scratch_len(), f.get_outofplace_scratch_len(), f.get_immutable_scratch_len()], f.len(), &mut fails);
+                                }
+                            }
+                        }};
+                    }
+                    if ty == 0 {
+                        go!(f32)
+                    } else {
+                        go!(f64)
+                    }
+                    (fails, evals)
+                });
+                match r {
+                    Err(e) => rep.fail(format!("history-panic {}/{}", kind.name(), if ty == 0 { "f32" } else { "f64" }), e),
+                    Ok((fails, evals)) => {
+                        rep.evaluations += evals;
+                        rep.nontrivial += evals;
+                        for (k, d) in fails {
+                            rep.fail(k, d);
+                        }
+                    }
+                }
+            }
+        }
+        shared.merge(rep);
+    }
     let mut rep = shared.into_inner();
     let wo = worst_ops.lock().unwrap();
     let ws = worst_scr.lock().unwrap();
